@@ -198,14 +198,36 @@ Section Hist.
     find_client cs id = Some c /\ match f with AF_GetClient _ => false | _ => true end = true.
   Proof. destruct f; cbn; try discriminate; destruct (find_client cs id); intro H; inversion H; auto. Qed.
 
-  (* every answer of the authorization endpoint *)
-  Definition authorize_shape (st : list sreq) (q : areq) (r : list sreq * out) : Prop :=
-    (fst r = st /\ is_page (snd r) = true) \/
+  (* every answer of the authorization endpoint once the request object is dealt with *)
+  Definition core_ok (st : list sreq) (q : areq) (r : list sreq * out) : Prop :=
     exists c, find_client cs (q_client q) = Some c /\
       match q_fault q with AF_GetClient _ => false | _ => true end = true /\
       validate c (q_uri q) (q_rt q) = VOk /\
       ((fst r = st /\ from_uri (q_uri q) (snd r) /\ is_login (snd r) = false) \/
        (fst r = st ++ [new_req q] /\ snd r = OLogin (c_login c))).
+  Definition core_shape (st : list sreq) (q : areq) (r : list sreq * out) : Prop :=
+    (fst r = st /\ is_page (snd r) = true) \/ core_ok st q r.
+
+  (* q' is what q becomes after its request object (if any) was verified and merged *)
+  Definition effective (q q' : areq) : Prop :=
+    q_client q' = q_client q /\ q_rt q' = q_rt q /\ q_fault q' = q_fault q /\
+    In (q_uri q') (candidates q).
+
+  Definition authorize_shape (st : list sreq) (q : areq) (r : list sreq * out) : Prop :=
+    (fst r = st /\ is_page (snd r) = true) \/ exists q', effective q q' /\ core_ok st q' r.
+
+  Lemma effective_refl q : effective q q.
+  Proof. unfold effective, candidates. cbn. auto. Qed.
+
+  Lemma parse_ro_effective q q' : parse_ro q = inr q' -> effective q q'.
+  Proof.
+    unfold parse_ro. destruct (q_reqobj q) as [| |o] eqn:E.
+    - intro H. inversion H. apply effective_refl.
+    - discriminate.
+    - repeat match goal with |- context [if ?b then _ else _] => destruct b end; try discriminate.
+      intro H. inversion H. unfold effective, candidates, merge_ro. cbn. rewrite E.
+      repeat split. destruct (String.eqb (ro_uri o) ""); cbn; auto.
+  Qed.
 
   Ltac split_ifs :=
     repeat match goal with
@@ -215,12 +237,10 @@ Section Hist.
   Lemma from_uri_not_login u x : from_uri u x -> is_login x = false.
   Proof. intros [H|[fr [code [cq [cf [_ ->]]]]]]; [destruct x; cbn in *; congruence | reflexivity]. Qed.
 
-  Lemma authorize_provider_shape st q :
-    authorize_shape st q (authorize_provider glob info ro nf cs st q).
+  Lemma provider_core_shape st q :
+    core_shape st q (provider_core glob info nf cs st q).
   Proof.
-    unfold authorize_provider, authorize_shape.
-    destruct (q_malformed q); [left; auto|].
-    destruct (q_reqobj q && ro); [left; auto|].
+    unfold provider_core, core_shape, core_ok.
     destruct (String.eqb (q_client q) ""); [left; auto|].
     destruct (String.eqb (q_uri q) ""); [left; auto|].
     destruct (lookup_client nf cs (q_fault q) (q_client q)) as [k|c] eqn:El; [left; auto|].
@@ -237,13 +257,10 @@ Section Hist.
     right. auto.
   Qed.
 
-  Lemma authorize_legacy_shape st q :
-    authorize_shape st q (authorize_legacy glob info ro nf cs st q).
+  Lemma legacy_core_shape st q :
+    core_shape st q (legacy_core glob info nf cs st q).
   Proof.
-    unfold authorize_legacy, authorize_shape.
-    destruct (q_malformed q); [left; auto|].
-    destruct (q_reqobj q && negb ro); [left; auto|].
-    destruct (q_reqobj q); [left; auto|].
+    unfold legacy_core, core_shape, core_ok.
     destruct (String.eqb (q_client q) ""); [left; auto|].
     destruct (lookup_client nf cs (q_fault q) (q_client q)) as [k|c] eqn:El;
       [left; split; [reflexivity | apply legacy_page_is_page]|].
@@ -266,6 +283,32 @@ Section Hist.
     right. auto.
   Qed.
 
+  Lemma lift_core st q q' r : effective q q' -> core_shape st q' r -> authorize_shape st q r.
+  Proof. intros He [H|H]; [left; exact H | right; exists q'; auto]. Qed.
+
+  Lemma authorize_provider_shape st q :
+    authorize_shape st q (authorize_provider glob info ro nf cs st q).
+  Proof.
+    unfold authorize_provider.
+    destruct (q_malformed q); [left; auto|].
+    destruct (has_ro q && ro).
+    - destruct (parse_ro q) as [g|q'] eqn:Ep; [left; auto|].
+      eapply lift_core; [apply parse_ro_effective, Ep | apply provider_core_shape].
+    - eapply lift_core; [apply effective_refl | apply provider_core_shape].
+  Qed.
+
+  Lemma authorize_legacy_shape st q :
+    authorize_shape st q (authorize_legacy glob info ro nf cs st q).
+  Proof.
+    unfold authorize_legacy.
+    destruct (q_malformed q); [left; auto|].
+    destruct (has_ro q).
+    - destruct (negb ro); [left; auto|].
+      destruct (parse_ro q) as [[|]|q'] eqn:Ep; [left; auto|left; auto|].
+      eapply lift_core; [apply parse_ro_effective, Ep | apply legacy_core_shape].
+    - eapply lift_core; [apply effective_refl | apply legacy_core_shape].
+  Qed.
+
   Lemma authorize_has_shape r st q : authorize_shape st q (authorize r st q).
   Proof. destruct r; [apply authorize_provider_shape | apply authorize_legacy_shape]. Qed.
 
@@ -274,7 +317,10 @@ Section Hist.
     exists c, find_client cs (s_client s) = Some c /\ validate c (s_uri s) (s_rt s) = VOk.
   Definition valid_st (st : list sreq) : Prop := Forall valid_req st.
 
-  Definition proj (s : sreq) : string * string * string := (s_client s, s_uri s, s_rt s).
+  (* a stored request and the predicate's record of it: same client and response type, and the
+     stored URI is one of the URIs the request mentioned *)
+  Definition R (s : sreq) (e : string * list string * string) : Prop :=
+    fst (fst e) = s_client s /\ snd e = s_rt s /\ In (s_uri s) (snd (fst e)).
 
   Lemma update_nth_valid k f st :
     (forall s, valid_req s -> valid_req (f s)) -> valid_st st -> valid_st (update_nth k f st).
@@ -284,11 +330,22 @@ Section Hist.
     apply IH; assumption.
   Qed.
 
-  Lemma update_nth_proj k f st :
-    (forall s, proj (f s) = proj s) -> map proj (update_nth k f st) = map proj st.
+  Lemma update_nth_R k f st cr :
+    (forall s e, R s e -> R (f s) e) -> Forall2 R st cr -> Forall2 R (update_nth k f st) cr.
   Proof.
-    intros Hf. revert k. induction st as [|s r IH]; intros k; destruct k; cbn; try reflexivity;
-      [now rewrite Hf | now rewrite IH].
+    intros Hf H. revert k. induction H as [|s e st cr Hs H IH]; intros k; destruct k; cbn;
+      constructor; auto.
+  Qed.
+
+  Lemma Forall2_nth st cr n :
+    Forall2 R st cr ->
+    match nth_error st n, nth_error cr n with
+    | Some s, Some e => R s e
+    | None, None => True
+    | _, _ => False
+    end.
+  Proof.
+    intro H. revert n. induction H as [|s e st cr Hs H IH]; intros [|n]; cbn; auto. apply IH.
   Qed.
 
   Lemma mark_done_valid s : valid_req s -> valid_req (mark_done s).
@@ -338,8 +395,8 @@ Section Hist.
   Lemma step_valid st o : valid_st st -> valid_st (fst (step st o)).
   Proof.
     intro H. destruct o as [r q|k|r k f]; cbn [step].
-    - pose proof (authorize_has_shape r st q) as S. unfold authorize_shape in S.
-      destruct S as [[-> _]|[c [Hc [Hnf [Hv [[-> _]|[-> _]]]]]]]; try assumption.
+    - pose proof (authorize_has_shape r st q) as S. unfold authorize_shape, core_ok in S.
+      destruct S as [[-> _]|[q' [He [c [Hc [Hnf [Hv [[-> _]|[-> _]]]]]]]]]; try assumption.
       apply Forall_app. split; [assumption|]. constructor; [|constructor].
       exists c. cbn. auto.
     - cbn. apply update_nth_valid; auto using mark_done_valid.
@@ -348,24 +405,27 @@ Section Hist.
   Qed.
 
   (* ---- the answers are safe ---- *)
-  Lemma target_ok_from cid c u rt x :
-    find_client cs cid = Some c -> validate c u rt = VOk -> from_uri u x ->
-    target_ok glob info cs cid u rt x = true.
+  Lemma target_ok_from cid c cands u rt x :
+    find_client cs cid = Some c -> validate c u rt = VOk -> In u cands -> from_uri u x ->
+    target_ok glob info cs cid cands rt x = true.
   Proof.
-    intros Hc Hv [Hp|[fr [code [cq [cf [Hk ->]]]]]].
+    intros Hc Hv Hi [Hp|[fr [code [cq [cf [Hk ->]]]]]].
     - destruct x; cbn in Hp; try discriminate. reflexivity.
-    - cbn. rewrite Hc, Hk. unfold C03_spec.registered.
+    - cbn. rewrite Hc. apply existsb_exists. exists u. split; [assumption|].
+      rewrite Hk. unfold C03_spec.registered.
       rewrite (validate_ok_registered glob loopf c u rt Hv). cbn. apply String.eqb_refl.
   Qed.
 
-  Lemma target_ok_success cid c s x :
-    find_client cs cid = Some c -> validate c (s_uri s) (s_rt s) = VOk -> success_from s x ->
-    target_ok glob info cs cid (s_uri s) (s_rt s) x = true.
+  Lemma target_ok_success cid c cands s x :
+    find_client cs cid = Some c -> validate c (s_uri s) (s_rt s) = VOk -> In (s_uri s) cands ->
+    success_from s x ->
+    target_ok glob info cs cid cands (s_rt s) x = true.
   Proof.
-    intros Hc Hv [H|[->|[t [Ht ->]]]].
+    intros Hc Hv Hi [H|[->|[t [Ht ->]]]].
     - eapply target_ok_from; eauto.
     - reflexivity.
-    - cbn. rewrite Hc, Ht. unfold C03_spec.registered.
+    - cbn. rewrite Hc. apply existsb_exists. exists (s_uri s). split; [assumption|].
+      rewrite Ht. unfold C03_spec.registered.
       rewrite (validate_ok_registered glob loopf c _ _ Hv). cbn. apply String.eqb_refl.
   Qed.
 
@@ -374,15 +434,17 @@ Section Hist.
     intros [H|[->|[t [_ ->]]]]; [eapply from_uri_not_login; eauto | reflexivity | reflexivity].
   Qed.
 
-  Lemma must_page_no_validate q c :
-    must_page glob info cs q = true -> find_client cs (q_client q) = Some c ->
-    match q_fault q with AF_GetClient _ => false | _ => true end = true ->
-    validate c (q_uri q) (q_rt q) = VOk -> False.
+  Lemma must_page_no_validate q q' c :
+    must_page glob info cs q = true -> effective q q' ->
+    find_client cs (q_client q') = Some c ->
+    match q_fault q' with AF_GetClient _ => false | _ => true end = true ->
+    validate c (q_uri q') (q_rt q') = VOk -> False.
   Proof.
-    unfold must_page. intros Hm Hc Hnf Hv. rewrite Hc in Hm.
+    unfold must_page. intros Hm [Hcl [Hrt [Hfa Hin]]] Hc Hnf Hv.
+    rewrite Hcl in Hc. rewrite Hfa in Hnf. rewrite Hc in Hm.
     replace (match q_fault q with AF_GetClient _ => true | _ => false end) with false in Hm
       by (destruct (q_fault q); cbn in *; congruence).
-    rewrite orb_false_r in Hm.
+    cbn [orb] in Hm. rewrite forallb_forall in Hm. specialize (Hm _ Hin).
     pose proof (validate_ok_registered glob loopf c _ _ Hv) as Hr.
     unfold registeredb in Hr. apply andb_true_iff in Hr as [Hr _]. apply andb_true_iff in Hr as [Hu Hmm].
     unfold matching in Hm. rewrite Hmm in Hm. cbn in Hm. rewrite orb_false_r in Hm.
@@ -398,45 +460,45 @@ Section Hist.
   Lemma page_no_redirect x : is_page x = true -> no_redirect x = true.
   Proof. destruct x; cbn; congruence. Qed.
 
-  Lemma nth_error_map_proj st n :
-    nth_error (map proj st) n = option_map proj (nth_error st n).
-  Proof. revert n. induction st; intros [|n]; cbn; auto. Qed.
-
-  Theorem spec_hist_run ops : forall st,
-    valid_st st ->
-    spec_hist glob info cs (map proj st) ops (run st ops) = true.
+  Theorem spec_hist_run ops : forall st created,
+    valid_st st -> Forall2 R st created ->
+    spec_hist glob info cs created ops (run st ops) = true.
   Proof.
-    induction ops as [|o ops IH]; intros st Hst; [reflexivity|].
+    induction ops as [|o ops IH]; intros st created Hst HR; [reflexivity|].
     cbn [run]. destruct (step st o) as [st' x] eqn:Es.
     pose proof (step_valid st o Hst) as Hst'. rewrite Es in Hst'. cbn [fst] in Hst'.
     destruct o as [r q|k|r k f]; cbn [step] in Es; cbn [spec_hist].
-    - pose proof (authorize_has_shape r st q) as S. rewrite Es in S. unfold authorize_shape in S. cbn [fst snd] in S.
-      destruct S as [[-> Hp]|[c [Hc [Hnf [Hv [[-> [Hf Hl]]|[-> ->]]]]]]].
+    - pose proof (authorize_has_shape r st q) as S. rewrite Es in S. unfold authorize_shape, core_ok in S. cbn [fst snd] in S.
+      destruct S as [[-> Hp]|[q' [He [c [Hc [Hnf [Hv [[-> [Hf Hl]]|[-> ->]]]]]]]]].
       + rewrite Hp, (page_target_ok _ _ _ _ Hp), (page_login_ok _ _ Hp), (page_not_login _ Hp).
         destruct (must_page glob info cs q); cbn; apply IH; assumption.
       + destruct (must_page glob info cs q) eqn:Em; [exfalso; eapply must_page_no_validate; eauto|].
-        rewrite (target_ok_from _ c _ _ _ Hc Hv Hf), Hl. cbn.
+        destruct He as [Hcl [Hrt [Hfa Hin]]]. rewrite Hcl in Hc. rewrite Hrt in Hv.
+        rewrite (target_ok_from _ c _ _ _ _ Hc Hv Hin Hf), Hl. cbn.
         replace (login_ok cs q x) with true by (destruct x; cbn in *; congruence).
         cbn. apply IH; assumption.
       + destruct (must_page glob info cs q) eqn:Em; [exfalso; eapply must_page_no_validate; eauto|].
+        destruct He as [Hcl [Hrt [Hfa Hin]]]. rewrite Hcl in Hc.
         cbn. rewrite Hc, String.eqb_refl. cbn.
-        replace (map proj st ++ [(q_client q, q_uri q, q_rt q)]) with (map proj (st ++ [new_req q]))
-          by (rewrite map_app; reflexivity).
-        apply IH; assumption.
-    - inversion Es; subst. rewrite <- (update_nth_proj k mark_done st) by reflexivity.
-      apply IH; assumption.
+        apply IH; [assumption|]. apply Forall2_app; [assumption|].
+        constructor; [|constructor]. unfold R. cbn. auto.
+    - inversion Es; subst. apply IH; [assumption|].
+      apply update_nth_R; [|assumption]. intros s e H. exact H.
     - pose proof (callback_has_shape st k f) as [Hs Hx]. rewrite Es in Hs, Hx. cbn [fst snd] in Hs, Hx.
-      assert (Hm : map proj st' = map proj st).
-      { destruct Hs as [->|[n ->]]; [reflexivity | apply update_nth_proj; reflexivity]. }
-      pose proof (IH st' Hst') as IHs. rewrite Hm in IHs. rewrite IHs, andb_true_r.
+      assert (HR' : Forall2 R st' created).
+      { destruct Hs as [->|[n ->]]; [assumption | apply update_nth_R; [|assumption]].
+        intros s e H. exact H. }
+      rewrite (IH st' created Hst' HR'), andb_true_r.
       destruct Hx as [Hp|[n [s [-> [Hn Hsf]]]]].
-      + destruct (match k with Some k0 => nth_error (map proj st) k0 | None => None end) as [[[cid u] rt]|].
+      + destruct (match k with Some k0 => nth_error created k0 | None => None end) as [[[cid u] rt]|].
         * rewrite (page_target_ok _ _ _ _ Hp), (page_not_login _ Hp). reflexivity.
         * apply page_no_redirect, Hp.
-      + rewrite nth_error_map_proj, Hn. cbn [option_map proj].
+      + pose proof (Forall2_nth st created n HR) as Hnth. rewrite Hn in Hnth.
+        destruct (nth_error created n) as [[[cid cands] rt]|]; [|contradiction].
+        destruct Hnth as [H1 [H2 H3]]. cbn in H1, H2, H3. subst cid rt.
         unfold valid_st in Hst. rewrite Forall_forall in Hst.
         destruct (Hst s (nth_error_In _ _ Hn)) as [c [Hc Hv]].
-        rewrite (target_ok_success _ c s x Hc Hv Hsf), (success_not_login s x Hsf). reflexivity.
+        rewrite (target_ok_success _ c cands s x Hc Hv H3 Hsf), (success_not_login s x Hsf). reflexivity.
   Qed.
 
   Lemma find_client_In id c : find_client cs id = Some c -> In c cs.
@@ -454,8 +516,8 @@ Section Hist.
   Lemma step_safe st o : valid_st st -> safe_out (snd (step st o)).
   Proof.
     intro Hst. destruct o as [r q|k|r k f]; cbn [step].
-    - pose proof (authorize_has_shape r st q) as S. unfold authorize_shape in S.
-      destruct S as [[_ Hp]|[c [Hc [Hnf [Hv [[_ [Hf _]]|[_ ->]]]]]]].
+    - pose proof (authorize_has_shape r st q) as S. unfold authorize_shape, core_ok in S.
+      destruct S as [[_ Hp]|[q' [He [c [Hc [Hnf [Hv [[_ [Hf _]]|[_ ->]]]]]]]]].
       + destruct (snd (authorize r st q)); cbn in Hp; try discriminate. exact I.
       + eapply from_uri_safe; eauto using find_client_In.
       + exact I.
@@ -479,19 +541,22 @@ Section Hist.
   Qed.
 
   Theorem direct_error r st q :
-    q_uri q = "" \/ (exists k, q_fault q = AF_GetClient k) \/ find_client cs (q_client q) = None \/
-    (exists c, find_client cs (q_client q) = Some c /\ matches glob loopf c (q_uri q) = false) ->
+    (exists k, q_fault q = AF_GetClient k) \/ find_client cs (q_client q) = None \/
+    (exists c, find_client cs (q_client q) = Some c /\
+               forall u, In u (candidates q) -> u = "" \/ matches glob loopf c u = false) ->
     exists status code, authorize r st q = (st, OPage status code).
   Proof.
     intro H.
     assert (Hm : must_page glob info cs q = true).
-    { unfold must_page. destruct H as [->|[[k ->]|[->|[c [-> Hc]]]]]; cbn; auto.
-      - rewrite orb_true_r. reflexivity.
-      - apply orb_true_r.
-      - unfold matching. rewrite Hc. apply orb_true_r. }
-    pose proof (authorize_has_shape r st q) as S. unfold authorize_shape in S.
+    { unfold must_page. destruct H as [[k Hk]|[Hn|[c [Hf Hc]]]].
+      - rewrite Hk. reflexivity.
+      - rewrite Hn. apply orb_true_r.
+      - rewrite Hf. apply orb_true_iff. right. apply forallb_forall. intros u Hu.
+        destruct (Hc u Hu) as [->|Hn]; [reflexivity|].
+        unfold matching. rewrite Hn. apply orb_true_r. }
+    pose proof (authorize_has_shape r st q) as S. unfold authorize_shape, core_ok in S.
     destruct (authorize r st q) as [st' x]. cbn [fst snd] in S.
-    destruct S as [[-> Hp]|[c [Hc [Hnf [Hv _]]]]].
+    destruct S as [[-> Hp]|[q' [He [c [Hc [Hnf [Hv _]]]]]]].
     - destruct x; cbn in Hp; try discriminate. eauto.
     - exfalso. eapply must_page_no_validate; eauto.
   Qed.
@@ -506,7 +571,7 @@ Proof.
   intros [c u rt t|ro nf cs t ops]; cbn [model spec].
   - destruct (validate_redirect _ _ c u rt) eqn:E; auto.
     unfold registered. apply validate_ok_registered, E.
-  - apply (spec_hist_run (glob_of (t_glob t)) (info_of (t_uri t)) ro nf cs ops []). constructor.
+  - apply (spec_hist_run (glob_of (t_glob t)) (info_of (t_uri t)) ro nf cs ops [] []); constructor.
 Qed.
 
 (* ---- non-vacuity: a concrete flow that ends in a success redirect, and one that is refused ---- *)
@@ -519,7 +584,7 @@ Definition ex_glob (g u : string) : gres :=
 Definition ex_info (u : string) : uinfo :=
   {| u_loop := None; u_canon := Some (u, u); u_form := Some u |}.
 Definition ex_req (u : string) : areq :=
-  {| q_client := "web"; q_uri := u; q_rt := "code"; q_mode := ""; q_malformed := false; q_reqobj := false;
+  {| q_client := "web"; q_uri := u; q_rt := "code"; q_mode := ""; q_malformed := false; q_reqobj := RP_None;
      q_prompt := P_Ok; q_noscope := false; q_hint_bad := false; q_fault := AF_None |}.
 
 Example C03_nonvacuous :
@@ -527,4 +592,21 @@ Example C03_nonvacuous :
       [Authorize Provider (ex_req "https://sub.example.com/cb"); Login 0; Callback Legacy (Some 0) CF_None;
        Authorize Legacy (ex_req "https://evil.example/cb"); Authorize Provider (ex_req "https://evil.example/cb")]
   = [OLogin "/login?id="; ONone; ORedirect false "" "https://sub.example.com/cb"; OPage 400 "invalid_request"; OPage 400 ""].
+Proof. vm_compute. reflexivity. Qed.
+
+(* a correctly signed request object whose redirect_uri replaces a registered plain parameter:
+   refused when that URI is not registered (both routers), followed when it is *)
+Definition ex_ro (u : string) : reqparam :=
+  RP_Signed {| ro_iss := "web"; ro_client := "web"; ro_aud_ok := true; ro_sig_ok := true;
+               ro_rt := "code"; ro_uri := u; ro_mode := ""; ro_prompt := None |}.
+Definition ex_req_ro (u : string) : areq :=
+  {| q_client := "web"; q_uri := "https://app.example.com/cb"; q_rt := "code"; q_mode := ""; q_malformed := false;
+     q_reqobj := ex_ro u; q_prompt := P_Ok; q_noscope := false; q_hint_bad := false; q_fault := AF_None |}.
+
+Example C03_nonvacuous_request_object :
+  run ex_glob ex_info true EK_Plain [ex_client] []
+      [Authorize Provider (ex_req_ro "https://evil.example/cb"); Authorize Legacy (ex_req_ro "https://evil.example/cb");
+       Authorize Provider (ex_req_ro "https://sub.example.com/cb"); Login 0; Callback Provider (Some 0) CF_None]
+  = [OPage 400 ""; OPage 400 "invalid_request"; OLogin "/login?id="; ONone;
+     ORedirect false "" "https://sub.example.com/cb"].
 Proof. vm_compute. reflexivity. Qed.
